@@ -164,6 +164,44 @@ func libdiffCase(rep *Report, s *glue.Subject, d MD, idx int) {
 		rep.Count("C10", "merges", 1)
 	}
 
+	// ---- struct-level twins of the same value: empty-but-allocated containers (what the JSON/text parsers
+	// store for "" / [] / {}) are the same protobuf value as nil ones for every library algorithm
+	if idx%3 == 0 {
+		E := BuildStruct(s.Zero, v)
+		nilToEmpty(reflect.ValueOf(E), 0)
+		if !proto.Equal(E, S) || !proto.Equal(S, E) {
+			bad("equal-empty-vs-nil", "a message with empty allocated containers is not Equal to the same value with nil containers")
+		}
+		if ce := proto.Clone(E); !proto.Equal(E, ce) || !proto.Equal(ce, E) {
+			bad("equal-clone-of-empty", "Equal(m, Clone(m)) is false for a message with empty allocated containers")
+		}
+		ej, e1 := protojson.Marshal(E)
+		dj, e2 := protojson.Marshal(D)
+		if (e1 == nil) != (e2 == nil) || (e1 == nil && !bytes.Equal(ej, dj)) {
+			bad("json-marshal-empty-vs-nil", "protojson output of a message with empty allocated containers differs from the reference: "+firstDiffText(ej, dj))
+		}
+		et, e1 := prototext.Marshal(E)
+		dt, e2 := prototext.Marshal(D)
+		if (e1 == nil) != (e2 == nil) || (e1 == nil && !bytes.Equal(et, dt)) {
+			bad("text-marshal-empty-vs-nil", "prototext output of a message with empty allocated containers differs from the reference: "+firstDiffText(et, dt))
+		}
+		rep.Count("C10", "empty-container-twins", 1)
+	}
+	if idx == 0 {
+		// Clone of an invalid (nil) message is the invalid zero message, as for the reference
+		nilPtr := reflect.Zero(reflect.TypeOf(s.Zero)).Interface().(proto.Message)
+		var cv, rv bool
+		pan, pmsg := safely(func() {
+			cv = proto.Clone(nilPtr).ProtoReflect().IsValid()
+			rv = proto.Clone(dynamicpb.NewMessageType(d).Zero().Interface()).ProtoReflect().IsValid()
+		})
+		if pan {
+			bad("clone-nil-panics", pmsg)
+		} else if cv != rv {
+			bad("clone-nil-validity", fmt.Sprintf("Clone of a nil message is valid=%v, reference valid=%v", cv, rv))
+		}
+	}
+
 	// ---- Clone: deep, equal, independent
 	C := proto.Clone(S)
 	if got := SpecEncode(Canon(StructToIR(C))); !bytes.Equal(got, want) {
@@ -254,6 +292,16 @@ func libdiffCase(rep *Report, s *glue.Subject, d MD, idx int) {
 				rb, _ := detOpts.Marshal(pj2)
 				if got := SpecEncode(Canon(StructToIR(pj1))); !bytes.Equal(got, rb) {
 					bad("json-unmarshal", "protojson.Unmarshal result differs from the reference: "+firstDiff(got, rb))
+				} else {
+					// the parsed message (which holds whatever the parser stored for "" / [] / {}) behaves like the reference's
+					o1, oe1 := protojson.Marshal(pj1)
+					o2, oe2 := protojson.Marshal(pj2)
+					if (oe1 == nil) != (oe2 == nil) || (oe1 == nil && !bytes.Equal(o1, o2)) {
+						bad("json-remarshal-after-parse", "re-marshalling the parsed message differs from the reference: "+firstDiffText(o1, o2))
+					}
+					if !proto.Equal(pj1, proto.Clone(pj1)) {
+						bad("equal-clone-after-parse", "Equal(m, Clone(m)) is false for a message produced by protojson.Unmarshal")
+					}
 				}
 			}
 			rep.Count("C10", "json-roundtrips", 1)
